@@ -170,8 +170,8 @@ def rule_newlines(ck: Check, repo: Repo) -> None:
                     repo.loc(dl))
 
 
-def rule_shebang(ck: Check, repo: Repo) -> None:
-    r = ck.rule("R3", "a shebang / first-line declaration is extracted before the header is created and stays first")
+def rule_shebang(ck: Check, repo: Repo, rid: str = "R3") -> None:
+    r = ck.rule(rid, "a shebang / first-line declaration is extracted before the header is created and stays first")
     for name, arg0 in (("find_and_replace_header", "new_header"), ("add_new_header", "header")):
         q = f"{HD}.{name}"
         fn = repo.func(q)
